@@ -587,6 +587,10 @@ func keys(m map[string]bool) []string {
 
 func main() {
 	res = report.Init("C20", "exploration")
+	if report.FreeRun > 0 {
+		eraceFree(report.FreeRun)
+		res.Finish()
+	}
 	e1()
 	e2()
 	e3()
